@@ -74,6 +74,16 @@ def run(rep):
     if p1x is None or len(E_alts) != len(endenv):
         raise AnalysisError(f"{file}: previous-vertex variables of the edge loop not recognised")
     E = E_alts[0][1]
+    # every way out of an iteration advances the previous vertex: a `continue` placed before the update makes the next edge start
+    # from a stale vertex (the corner after a skipped edge is cut)
+    try:
+        full = cq.evaluate(estm)
+        stale = [f_ for f_ in full.finals if f_[2] == "ContinueStmt" and not (p1x in f_[0] and p1y in f_[0] and f_[0][p1x][0] == 'call' and f_[0][p1x][1] == 'A:polygon')]
+        rep.check(not stale, "R15.b", file, "c_inside", "every path through the edge step (including `continue`) advances the previous vertex to the edge's second vertex",
+                  f"{len(stale)} path(s) leave the iteration with the previous vertex unchanged, e.g. under {[show(c)[:50] for c, _t in stale[0][1]][-1:] if stale else ''}",
+                  line=el.get("_line"), firm=True)
+    except Undecided as ex:
+        rep.undecided("R15.b", file, "c_inside", "every path through the edge step advances the previous vertex", str(ex), line=el.get("_line"))
 
     def polygon_cb(idx):
         c_ = Canon()
@@ -227,7 +237,7 @@ def run(rep):
             continue
         cut = [show(x)[:60] for _c, alt in pq.split_where(val_) for x in pq.find(alt, lambda y: pq.call_named(y, "getitem") or pq.call_named(y, "delete") or pq.call_named(y, "unique"))]
         rep.check(not cut and pq.mentions(val_, lambda y: y == ('sym', pn_)), "R15.b", "gis/gutils.py", "points_inside_polygon",
-                  f"`{pn_}` handed to the kernel is the caller's array, all rows (conversions only)", f"{cut[:1]}", line=st.call.lineno)
+                  f"`{pn_}` handed to the kernel is the caller's array, all rows (conversions only)", f"{cut[:1]}", line=st.call.lineno, firm=True)
     names = {pn: ast.unparse(x[0]) for pn, x in st.args.items()}
     rep.check(names.get("points") == "points" and names.get("polygon") == "polygon" and names.get("atol") == "atol", "R15.b", "gis/gutils.py", "points_inside_polygon",
               "points, polygon and tolerance bound to the same-named shim parameters", str(names), line=st.call.lineno)
